@@ -105,7 +105,7 @@ def load_known_findings():
     if os.path.exists(p):
         for line in open(p):
             line = line.strip()
-            if not line or line.startswith("#"):
+            if not line or line.startswith("#") or line.startswith("fixed:"):
                 continue
             out.append(json.loads(line))
     return out
